@@ -15,3 +15,4 @@ import Larking.Gen.Missing
 import Larking.Props.C05
 import Larking.Props.C14
 import Larking.Props.C15
+import Larking.Props.C17
